@@ -99,7 +99,7 @@ def make_engine(ir, h, known):
 # ----------------------------------------------------------------------------- known findings
 def load_known(prop):
     p = os.path.join(VERIF, 'known_findings.json')
-    if not os.path.exists(p): return []
+    if not os.path.exists(p) or os.environ.get('VERIF_NO_KNOWN'): return []
     out = []
     for k in json.load(open(p)).get('findings', []):
         if k.get('property') != prop or k.get('status') == 'fixed': continue
@@ -109,7 +109,7 @@ def load_known(prop):
 def compile_known(klist, hname):
     res = []
     for k in klist:
-        if k.get('harness') not in (None, hname): continue
+        if k.get('harness') is not None and not re.fullmatch(k['harness'], hname): continue
         pat = k['assert']
         pred = k.get('predicate', 'True')
         def match(label, pat=pat): return re.fullmatch(pat, label) is not None
